@@ -367,7 +367,7 @@ func init() {
 		"atomic_fetch_min_explicit": biAtomicMin, "atomic_fetch_max_explicit": biAtomicMax,
 		"atomic_fetch_and_explicit": biAtomicAnd, "atomic_fetch_or_explicit": biAtomicOr,
 		"atomic_fetch_xor_explicit": biAtomicXor,
-		"threadgroup_barrier": biBarrier,
+		"threadgroup_barrier":       biBarrier,
 	} {
 		builtinByName[name] = &builtin{name: name, id: id}
 	}
